@@ -277,7 +277,7 @@ def run_property(pid, tier, seed, only=None, jobs=None, verbose=False):
             time.sleep(0.05)
             still = []
             for ob, p, out, ts in running:
-                limit = ob.wall_s or (240 if tier == "quick" else 1500)
+                limit = ob.wall_s or (600 if tier == "quick" else 1500)
                 if not p.is_alive():
                     p.join()
                     if os.path.exists(out):
